@@ -10,6 +10,18 @@
 #include <Bpp/Numeric/ParameterList.h>
 #include <Bpp/Numeric/Parameter.h>
 #include <Bpp/Numeric/DataTable.h>
+#include <Bpp/Numeric/Prob/BetaDiscreteDistribution.h>
+#include <Bpp/Numeric/Prob/ConstantDistribution.h>
+#include <Bpp/Numeric/Prob/ExponentialDiscreteDistribution.h>
+#include <Bpp/Numeric/Prob/GammaDiscreteDistribution.h>
+#include <Bpp/Numeric/Prob/GaussianDiscreteDistribution.h>
+#include <Bpp/Numeric/Prob/InvariantMixedDiscreteDistribution.h>
+#include <Bpp/Numeric/Prob/MixtureOfDiscreteDistributions.h>
+#include <Bpp/Numeric/Prob/SimpleDiscreteDistribution.h>
+#include <Bpp/Numeric/Prob/TruncatedExponentialDiscreteDistribution.h>
+#include <Bpp/Numeric/Prob/UniformDiscreteDistribution.h>
+#include <Bpp/Io/BppODiscreteDistributionFormat.h>
+#include <Bpp/Io/OutputStream.h>
 #include <sstream>
 #include <map>
 #include <memory>
@@ -105,9 +117,66 @@ template <class C> static std::string showStrs(const C& v) {
   return s;
 }
 
+// a distribution in prefix notation: G n alpha beta | Go n alpha beta offset | B n alpha beta | E n lambda |
+// N n mu sigma | T n lambda tp | U n begin end | C value | S k v1..vk p1..pk | I p <dist> | M k p1..pk <dist>*k
+// (numbers: n, k decimal; the others 16 hex digits)
+static std::unique_ptr<DiscreteDistributionInterface> buildDist(const Toks& t, size_t& p) {
+  const std::string f = t.at(p++);
+  auto D = [&]() { return hexToDouble(t.at(p++)); };
+  auto N = [&]() { return toU(t.at(p++)); };
+  if (f == "G") { size_t n = N(); double a = D(), b = D(); return std::unique_ptr<DiscreteDistributionInterface>(new GammaDiscreteDistribution(n, a, b)); }
+  if (f == "Go") { size_t n = N(); double a = D(), b = D(), o = D(); return std::unique_ptr<DiscreteDistributionInterface>(new GammaDiscreteDistribution(n, a, b, 0.05, 0.05, true, o)); }
+  if (f == "B") { size_t n = N(); double a = D(), b = D(); return std::unique_ptr<DiscreteDistributionInterface>(new BetaDiscreteDistribution(n, a, b)); }
+  if (f == "E") { size_t n = N(); double l = D(); return std::unique_ptr<DiscreteDistributionInterface>(new ExponentialDiscreteDistribution(n, l)); }
+  if (f == "N") { size_t n = N(); double m = D(), sg = D(); return std::unique_ptr<DiscreteDistributionInterface>(new GaussianDiscreteDistribution(n, m, sg)); }
+  if (f == "T") { size_t n = N(); double l = D(), tp = D(); return std::unique_ptr<DiscreteDistributionInterface>(new TruncatedExponentialDiscreteDistribution(n, l, tp)); }
+  if (f == "U") { size_t n = N(); double b = D(), e = D(); return std::unique_ptr<DiscreteDistributionInterface>(new UniformDiscreteDistribution((unsigned int)n, b, e)); }
+  if (f == "C") { double v = D(); return std::unique_ptr<DiscreteDistributionInterface>(new ConstantDistribution(v)); }
+  if (f == "S") {
+    size_t k = N(); std::vector<double> v, pr;
+    for (size_t i = 0; i < k; ++i) v.push_back(D());
+    for (size_t i = 0; i < k; ++i) pr.push_back(D());
+    return std::unique_ptr<DiscreteDistributionInterface>(new SimpleDiscreteDistribution(v, pr));
+  }
+  if (f == "I") { double pi = D(); auto sub = buildDist(t, p); return std::unique_ptr<DiscreteDistributionInterface>(new InvariantMixedDiscreteDistribution(std::move(sub), pi, 0.000001)); }   // the invariant class is not part of the description: the reader puts it at 1e-6
+  if (f == "M") {
+    size_t k = N(); std::vector<double> pr; for (size_t i = 0; i < k; ++i) pr.push_back(D());
+    std::vector<std::unique_ptr<DiscreteDistributionInterface>> subs;
+    for (size_t i = 0; i < k; ++i) subs.push_back(buildDist(t, p));
+    return std::unique_ptr<DiscreteDistributionInterface>(new MixtureOfDiscreteDistributions(subs, pr));
+  }
+  throw Exception("unknown family");
+}
+
+// family, class count, class values, probabilities, independent parameters (name=value)
+static std::string showDist(const DiscreteDistributionInterface& d) {
+  std::string s = d.getName() + " " + std::to_string(d.getNumberOfCategories());
+  for (size_t i = 0; i < d.getNumberOfCategories(); ++i) s += " " + doubleToHex(d.getCategory(i));
+  for (size_t i = 0; i < d.getNumberOfCategories(); ++i) s += " " + doubleToHex(d.getProbability(i));
+  ParameterList pl = d.getIndependentParameters();
+  s += " P " + std::to_string(pl.size());
+  for (size_t i = 0; i < pl.size(); ++i) s += " " + strToHex(pl[i].getName()) + " " + doubleToHex(pl[i].getValue());
+  return s;
+}
+
 static std::string op(const Toks& t) {
   const std::string& o = t[0];
   try {
+    if (o == "dist.rt") {        // dist.rt <precision> <dist in prefix notation>: write the description, read it back
+      int prec = static_cast<int>(toI(t[1])); size_t p = 2;
+      std::unique_ptr<DiscreteDistributionInterface> d;
+      try { d = buildDist(t, p); } catch (Exception&) { return "build:exc:bpp"; }
+      std::ostringstream os; StlOutputStreamWrapper out(&os); out.setPrecision(prec);
+      BppODiscreteDistributionFormat fmt(false);
+      std::map<std::string, std::string> aliases; std::vector<std::string> written;
+      try { fmt.writeDiscreteDistribution(*d, out, aliases, written); } catch (Exception&) { return "write:exc:bpp"; }
+      std::string desc = os.str();
+      std::string res = strToHex(desc) + " / " + showDist(*d) + " / ";
+      BppODiscreteDistributionFormat rd(false);
+      try { auto back = rd.readDiscreteDistribution(desc, true); res += showDist(*back); }
+      catch (Exception&) { res += "exc:bpp"; }
+      return res;
+    }
     if (o == "st.rt") {          // st.rt <s> <delims> <solid> <allowEmpty> <k>
       std::string s = hexToStr(t[1]), d = hexToStr(t[2]); size_t k = toU(t[5]);
       TokAccess st(s, d, t[3] == "1", t[4] == "1");
